@@ -82,7 +82,7 @@ let apply (o : obj) (op : str) : obj * str =
   | "ext" | "extp" -> (unopt (extend o (parse_pairs p.(1))), "ok")
   | "fromvec" -> (unopt (from_vec (parse_pairs p.(1))), "ok")
   | "fromiter" -> (unopt (from_iter (parse_pairs p.(1))), "ok")
-  | "clone" | "take" -> (o, "ok")
+  | "clone" | "take" | "clonefrom" -> (o, "ok")
   | "reset" -> (empty_obj, "ok")
   | other -> (o, "BADOP(" ^ other ^ ")")
 
@@ -142,7 +142,7 @@ let m_apply (es : (n list * value) list) (op : str) : (n list * value) list * st
   | "setat" -> if n 1 < List.length es then (m_set_value_at es (nat (n 1)) (val_of (n 2)), "ok") else (es, "none")
   | "ext" | "extp" -> (m_extend es (parse_pairs p.(1)), "ok")
   | "fromvec" | "fromiter" -> (m_from_vec (parse_pairs p.(1)), "ok")
-  | "clone" | "take" -> (es, "ok")
+  | "clone" | "take" | "clonefrom" -> (es, "ok")
   | "reset" -> ([], "ok")
   | other -> (es, "BADOP(" ^ other ^ ")")
 
